@@ -184,6 +184,7 @@ pub fn run(ctx: &Ctx) {
     ctx.set_rule("case = (byte stream, schedule of poll_read results); streams as in C07 (message sequences, truncations, hostile length fields); schedules: every choice sequence with at most d deviations over {Ready(k) for the menu of k, Pending}, every uniform chunk size alone and with a Pending before every read, ALL compositions for short streams (alone and with a single Pending at every position); oracle = the blocking reader on the same bytes (default schedule) and the C07 cutter; a state is (stream, bytes delivered, messages emitted, deviations used) at a choice point");
     ctx.assume("the harness re-polls after every Pending (the source wakes the waker before returning Pending): state surviving pending polls and arbitrary chunking is checked, not wake-up registration, which is the source's duty");
     ctx.assume("with_capacity(65551, 65551, ..) for bulk exploration (futures' BufReader zero-fills its buffer: 480 us per `new`); a d<=1 subset uses DltStreamReader::new");
+    crate::bulk::run_bulk_families(ctx, "c08", true);
     let bound = ctx.tier.pick(2u32, 3u32);
     ctx.put("deviation_bound_completed", json!(bound));
     {
